@@ -103,6 +103,9 @@ struct Obs {
     errs: usize,
     store_after: Vec<(usize, Vec<TrackDump>)>,
     arrival: Vec<u64>,
+    /// results / error count of an earlier query that was still in flight (prior == 3), read afterwards
+    prior_oks: Vec<Item>,
+    prior_errs: usize,
 }
 
 #[derive(Clone, Debug)]
@@ -114,7 +117,8 @@ struct Scenario {
     /// consume the two result streams through into_iter() instead of all()
     iter: bool,
     /// an earlier query on the same store: 0 = none, 1 = abandoned (both streams dropped unread),
-    /// 2 = results read, error stream dropped unread
+    /// 2 = results read, error stream dropped unread, 3 = dispatched and NOT read yet: still in flight while the
+    /// query under test runs, read afterwards
     prior: u8,
 }
 
@@ -124,7 +128,13 @@ fn run_scenario(sc: &Scenario) -> Obs {
         let t = make(&store, s);
         store.add_track(t).unwrap();
     }
-    if sc.prior > 0 {
+    let mut in_flight = None;
+    if sc.prior == 3 {
+        sched::set_phase(1);
+        let c = vec![make(&store, &foreign(12, 0))];
+        in_flight = Some(store.foreign_track_distances(c, 0, false));
+    }
+    if sc.prior > 0 && sc.prior < 3 {
         // a different candidate (feature class 1: produces both results and missing-class errors)
         let c = vec![make(&store, &foreign(12, 1)), make(&store, &foreign(13, 0))];
         let (ok0, err0) = store.foreign_track_distances(c, 1, false);
@@ -163,11 +173,33 @@ fn run_scenario(sc: &Scenario) -> Obs {
         let e = err.all();
         (o, e)
     };
+    let (mut prior_oks, mut prior_errs) = (vec![], 0usize);
+    if let Some((ok0, err0)) = in_flight {
+        let o0 = ok0.all();
+        prior_errs = err0.all().len();
+        prior_oks = o0.iter().map(|o| (o.from, o.to, o.attribute_metric.map(|v| v.to_bits()), o.feature_distance.map(|v| v.to_bits()))).collect();
+        prior_oks.sort();
+    }
     sched::set_phase(2);
     let arrival: Vec<u64> = oks.iter().map(|o| o.from * 100 + o.to).collect();
     let mut items: Vec<Item> = oks.iter().map(|o| (o.from, o.to, o.attribute_metric.map(|v| v.to_bits()), o.feature_distance.map(|v| v.to_bits()))).collect();
     items.sort();
-    Obs { oks: items, errs: errs.len(), store_after: dump_store(&store, sc.shards), arrival }
+    Obs { oks: items, errs: errs.len(), store_after: dump_store(&store, sc.shards), arrival, prior_oks, prior_errs }
+}
+
+/// what the earlier, still-in-flight query (prior == 3) has to deliver
+fn expected_prior(sc: &Scenario) -> (Vec<Item>, usize) {
+    if sc.prior != 3 {
+        return (vec![], 0);
+    }
+    let sc2 = sc.clone();
+    sched::in_shuttle(move || {
+        let store: Guarded<HStore> = Guarded::new(TrackStoreBuilder::new(1).default_attributes(HAttrs::default()).metric(HMetric::default()).notifier(HNotifier).build());
+        let stored: Vec<TrackDump> = contents().iter().take(sc2.ntracks).map(|s| dump_track(&make(&store, s))).collect();
+        let cands = vec![dump_track(&make(&store, &foreign(12, 0)))];
+        reference(&cands, &stored, 0, false)
+    })
+    .unwrap_or_else(|e| machinery_error(&format!("C10 reference computation failed: {e}")))
 }
 
 fn expected(sc: &Scenario) -> (Vec<Item>, usize, Vec<TrackDump>) {
@@ -192,7 +224,7 @@ fn expected(sc: &Scenario) -> (Vec<Item>, usize, Vec<TrackDump>) {
 
 pub fn run(tier: Tier) -> Report {
     let rep = Report::new("C10", tier);
-    rep.set_rule("scenarios = store contents (4-6 tracks: mixed compatibility class, status Pending / Ready / Wasted, 0..2 observations in classes {0,1}, a pair beyond the metric cut-off) x candidate batch {one foreign, two foreign, foreign with a stored id, owned [1], owned [1,2], owned [2,4,1]} x only_baked x result streams consumed through all() / into_iter() x {fresh store, after an earlier query that was abandoned unread, after one whose error stream was dropped unread} x shard count; for each scenario every schedule of the store workers and the caller at command granularity within the preemption bound (window = the query until both result streams are drained); oracle: result multiset = reference cartesian product, error count, store unchanged, identical across schedules. states = executions (schedules), transitions = decision points.");
+    rep.set_rule("scenarios = store contents (4-6 tracks: mixed compatibility class, status Pending / Ready / Wasted, 0..2 observations in classes {0,1}, a pair beyond the metric cut-off) x candidate batch {one foreign, two foreign, foreign with a stored id, owned [1], owned [1,2], owned [2,4,1]} x only_baked x result streams consumed through all() / into_iter() x {fresh store, after an earlier query that was abandoned unread, after one whose error stream was dropped unread, while an earlier foreign query is still in flight (dispatched before, read after: it must deliver its complete result)} x shard count; for each scenario every schedule of the store workers and the caller at command granularity within the preemption bound (window = the query until both result streams are drained); oracle: result multiset = reference cartesian product, error count, store unchanged, identical across schedules. states = executions (schedules), transitions = decision points.");
     rep.assume("macro-step granularity: branching at named schedule points (worker dequeues a command; caller finished queueing; owned query between 'commands sent' and 're-added') and whenever the running task blocks");
     let shard_counts: Vec<usize> = tier.pick(vec![1, 2], vec![1, 2, 3]);
     let bound = usize::MAX / 4; // every schedule at command granularity (the spaces are small); the wall cap is the only limit
@@ -201,7 +233,7 @@ pub fn run(tier: Tier) -> Report {
     let mut vacuity: BTreeMap<String, serde_json::Value> = BTreeMap::new();
     for &shards in &shard_counts {
         for batch in batches {
-            for (only_baked, iter, prior) in [(false, false, 0u8), (true, false, 0), (false, true, 0), (true, true, 0), (false, false, 1), (false, false, 2), (false, true, 1)] {
+            for (only_baked, iter, prior) in [(false, false, 0u8), (true, false, 0), (false, true, 0), (true, true, 0), (false, false, 1), (false, false, 2), (false, true, 1), (false, false, 3)] {
                 if tier == Tier::Quick && (only_baked && (batch == "foreign2" || batch == "owned3") || iter && only_baked && batch != "foreign-stored-id") {
                     continue;
                 }
@@ -215,6 +247,7 @@ pub fn run(tier: Tier) -> Report {
                     continue;
                 }
                 let (exp_ok, exp_err, stored) = expected(&sc);
+                let (exp_prior_ok, exp_prior_err) = expected_prior(&sc);
                 let exp_store: Vec<(usize, Vec<TrackDump>)> = (0..shards).map(|k| (k, stored.iter().filter(|t| (t.id as usize) % shards == k).cloned().collect())).collect();
                 let outcomes: Mutex<BTreeMap<u64, (u64, Obs)>> = Mutex::new(BTreeMap::new());
                 let arrivals: Mutex<std::collections::BTreeSet<Vec<u64>>> = Mutex::new(Default::default());
@@ -227,7 +260,7 @@ pub fn run(tier: Tier) -> Report {
                     |x| match &x.outcome {
                         sched::Outcome::Done(o) => {
                             arrivals.lock().unwrap().insert(o.arrival.clone());
-                            let h = hash_of(&(format!("{:?}", o.oks), o.errs, format!("{:?}", o.store_after)));
+                            let h = hash_of(&(format!("{:?}", o.oks), o.errs, format!("{:?}", o.store_after), format!("{:?}", o.prior_oks), o.prior_errs));
                             let mut g = outcomes.lock().unwrap();
                             let e = g.entry(h).or_insert((0, o.clone()));
                             e.0 += 1;
@@ -249,6 +282,9 @@ pub fn run(tier: Tier) -> Report {
                             if o.errs != exp_err {
                                 rep.violation(Violation { key: format!("{site}/error-stream"), what: format!("{} error items, expected {exp_err}", o.errs), replay: json!({"scenario":scj,"schedule":x.schedule_json()}) });
                             }
+                            if o.prior_oks != exp_prior_ok || o.prior_errs != exp_prior_err {
+                                rep.violation(Violation { key: format!("{site}/earlier-query-in-flight-disturbed"), what: format!("a foreign query that was dispatched before this one and read after it delivered {} results / {} errors, expected {} / {exp_prior_err}: the later query must leave the store unchanged at every moment", o.prior_oks.len(), o.prior_errs, exp_prior_ok.len()), replay: json!({"scenario":scj,"schedule":x.schedule_json()}) });
+                            }
                             if o.store_after != exp_store {
                                 rep.violation(Violation { key: format!("{site}/store-changed"), what: format!("store after the query {:?}, expected {:?}", o.store_after, exp_store), replay: json!({"scenario":scj,"schedule":x.schedule_json()}) });
                             }
@@ -266,7 +302,7 @@ pub fn run(tier: Tier) -> Report {
                 if stats.truncated {
                     rep.cap_hit(&format!("scenario {sc:?} truncated by the wall cap after {} schedules", stats.executions));
                 }
-                vacuity.insert(format!("{batch}/baked={only_baked}/shards={shards}/{}{}", if iter { "iter" } else { "all" }, match prior { 0 => "", 1 => "/after-abandoned-query", _ => "/after-half-read-query" }), json!({"schedules":stats.executions,"max_decision_points":stats.max_points,"distinct_outcomes":n_out,"distinct_arrival_orders":arrivals.lock().unwrap().len(),"bound":"all","truncated":stats.truncated}));
+                vacuity.insert(format!("{batch}/baked={only_baked}/shards={shards}/{}{}", if iter { "iter" } else { "all" }, match prior { 0 => "", 1 => "/after-abandoned-query", 2 => "/after-half-read-query", _ => "/while-an-earlier-query-is-in-flight" }), json!({"schedules":stats.executions,"max_decision_points":stats.max_points,"distinct_outcomes":n_out,"distinct_arrival_orders":arrivals.lock().unwrap().len(),"bound":"all","truncated":stats.truncated}));
                 if rep.want_sample(total_exec) || vacuity.len() == 3 {
                     rep.sample(json!({"scenario":scj,"expected_pairs":exp_ok.iter().map(|i| (i.0,i.1)).collect::<Vec<_>>(),"expected_errors":exp_err,"schedules":stats.executions}));
                 }
@@ -275,12 +311,13 @@ pub fn run(tier: Tier) -> Report {
     }
     // fine tier: branch at every synchronisation operation (one preemption) on the smallest scenarios
     let fine: Vec<Scenario> = tier.pick(
-        vec![Scenario { shards: 1, batch: "owned2", only_baked: false, ntracks: 4, iter: false, prior: 0 }, Scenario { shards: 2, batch: "foreign1", only_baked: false, ntracks: 4, iter: true, prior: 1 }, Scenario { shards: 2, batch: "owned2", only_baked: false, ntracks: 4, iter: false, prior: 0 }],
-        vec![Scenario { shards: 1, batch: "owned2", only_baked: false, ntracks: 4, iter: false, prior: 0 }, Scenario { shards: 2, batch: "foreign1", only_baked: false, ntracks: 4, iter: true, prior: 1 }, Scenario { shards: 2, batch: "owned2", only_baked: false, ntracks: 4, iter: true, prior: 0 }, Scenario { shards: 2, batch: "foreign2", only_baked: true, ntracks: 4, iter: false, prior: 0 }],
+        vec![Scenario { shards: 1, batch: "owned2", only_baked: false, ntracks: 4, iter: false, prior: 0 }, Scenario { shards: 2, batch: "foreign1", only_baked: false, ntracks: 4, iter: true, prior: 1 }, Scenario { shards: 2, batch: "owned2", only_baked: false, ntracks: 4, iter: false, prior: 0 }, Scenario { shards: 1, batch: "owned2", only_baked: false, ntracks: 4, iter: false, prior: 3 }, Scenario { shards: 2, batch: "owned2", only_baked: false, ntracks: 4, iter: false, prior: 3 }],
+        vec![Scenario { shards: 1, batch: "owned2", only_baked: false, ntracks: 4, iter: false, prior: 3 }, Scenario { shards: 2, batch: "owned2", only_baked: false, ntracks: 4, iter: false, prior: 3 }, Scenario { shards: 1, batch: "owned2", only_baked: false, ntracks: 4, iter: false, prior: 0 }, Scenario { shards: 2, batch: "foreign1", only_baked: false, ntracks: 4, iter: true, prior: 1 }, Scenario { shards: 2, batch: "owned2", only_baked: false, ntracks: 4, iter: true, prior: 0 }, Scenario { shards: 2, batch: "foreign2", only_baked: true, ntracks: 4, iter: false, prior: 0 }],
     );
     let fine_bound = tier.pick(2usize, 3usize);
     for sc in fine {
         let (exp_ok, exp_err, stored) = expected(&sc);
+        let (exp_prior_ok, exp_prior_err) = expected_prior(&sc);
         let shards = sc.shards;
         let exp_store: Vec<(usize, Vec<TrackDump>)> = (0..shards).map(|k| (k, stored.iter().filter(|t| (t.id as usize) % shards == k).cloned().collect())).collect();
         let cfg = sched::ExploreCfg { mode: sched::Mode::Fine, count_all_deviations: true, window: (1, 1), bound: fine_bound, deadline: Some(std::time::Instant::now() + std::time::Duration::from_secs_f64((rep.budget() - rep.elapsed()).max(1.0))), ..Default::default() };
@@ -288,8 +325,8 @@ pub fn run(tier: Tier) -> Report {
         let sc_run = sc.clone();
         let stats = sched::explore(&cfg, move || run_scenario(&sc_run), |x| match &x.outcome {
             sched::Outcome::Done(o) => {
-                if o.oks != exp_ok || o.errs != exp_err || o.store_after != exp_store {
-                    rep.violation(Violation { key: "fine-tier/result-differs".into(), what: format!("{} results / {} errors, expected {} / {exp_err}", o.oks.len(), o.errs, exp_ok.len()), replay: json!({"scenario":scj,"schedule":x.schedule_json()}) });
+                if o.oks != exp_ok || o.errs != exp_err || o.store_after != exp_store || o.prior_oks != exp_prior_ok || o.prior_errs != exp_prior_err {
+                    rep.violation(Violation { key: "fine-tier/result-differs".into(), what: format!("{} results / {} errors, expected {} / {exp_err}; earlier in-flight query {} results / {} errors, expected {} / {exp_prior_err}", o.oks.len(), o.errs, exp_ok.len(), o.prior_oks.len(), o.prior_errs, exp_prior_ok.len()), replay: json!({"scenario":scj,"schedule":x.schedule_json()}) });
                 }
             }
             sched::Outcome::Machinery(m) => machinery_error(m),
@@ -300,7 +337,7 @@ pub fn run(tier: Tier) -> Report {
         if stats.truncated {
             rep.cap_hit(&format!("fine tier {sc:?} truncated after {} schedules", stats.executions));
         }
-        vacuity.insert(format!("fine/{}/shards={}", sc.batch, sc.shards), json!({"schedules":stats.executions,"max_decision_points":stats.max_points,"bound":fine_bound,"truncated":stats.truncated}));
+        vacuity.insert(format!("fine/{}/shards={}{}", sc.batch, sc.shards, if sc.prior == 3 { "/while-an-earlier-query-is-in-flight" } else { "" }), json!({"schedules":stats.executions,"max_decision_points":stats.max_points,"bound":fine_bound,"truncated":stats.truncated}));
     }
     rep.distinct_count(total_exec);
     rep.extra("scenarios", json!(vacuity));
